@@ -23,6 +23,8 @@ type Scenario struct {
 	Steps         []Step `json:"steps"`
 	// Faults[i] (optional, parallel to Steps): what the machine does around step i.
 	Faults []Fault `json:"faults,omitempty"`
+	// Prometheus: the node runs with instrumentation.prometheus = true (labelled collectors).
+	Prometheus bool `json:"prometheus,omitempty"`
 }
 
 // Fault: StoreFail k>0 makes the k-th durable write of the step fail with an I/O error; when the
@@ -110,6 +112,7 @@ func genScenario(t *rapid.T) Scenario {
 	}
 	sc.Lazy = rapid.Bool().Draw(t, "lazy")
 	sc.CustomPayload = rapid.IntRange(0, 3).Draw(t, "custompayload") == 0
+	sc.Prometheus = rapid.IntRange(0, 4).Draw(t, "prometheus") == 0
 	n := rapid.IntRange(1, world.Scale(12, 40)).Draw(t, "nsteps")
 	for i := 0; i < n; i++ {
 		sc.Steps = append(sc.Steps, genStep(t))
@@ -129,7 +132,7 @@ func genScenario(t *rapid.T) Scenario {
 }
 
 func run(sc Scenario, dir string) world.Verdict {
-	p, err := pw.New(world.NodeOpts{ChainID: "c01-chain", InitialHeight: sc.InitialHeight, Lazy: sc.Lazy, RootDir: dir, CustomPayload: sc.CustomPayload})
+	p, err := pw.New(world.NodeOpts{ChainID: "c01-chain", InitialHeight: sc.InitialHeight, Lazy: sc.Lazy, RootDir: dir, CustomPayload: sc.CustomPayload, Prometheus: sc.Prometheus})
 	if err != nil {
 		return world.Fail("C01/start", "NewManager failed on a fresh store: %v", err)
 	}
